@@ -51,8 +51,16 @@ def gen_adapter(rng, ms: MapSpec) -> Adapter:
             sub = rng.choice([None, None, "", "", "api"])
     if rng.random() < 0.3:
         # bound the way an application binds: Map.bind_to_environ on a WSGI environ (query string through the environ)
-        return Adapter(scheme=rng.choice(["http", "https"]), server=rng.choice(SERVERS).lower(), script=rng.choice(SCRIPTS),
-                       subdomain=sub, query=rng.choice(ENV_QUERIES), environ=True)
+        scheme = rng.choice(["http", "https"])
+        own, other = (":80", ":443") if scheme == "http" else (":443", ":80")
+        c = rng.random()
+        server, suffix = rng.choice(SERVERS).lower(), ""
+        if c < 0.2:
+            server, suffix = "example.com", own            # the scheme's own default port: dropped by get_host
+        elif c < 0.45:
+            server = "example.com" + other                 # the other scheme family's default port: part of the origin
+        return Adapter(scheme=scheme, server=server, script=rng.choice(SCRIPTS),
+                       subdomain=sub, query=rng.choice(ENV_QUERIES), environ=True, host_suffix=suffix)
     return Adapter(scheme=rng.choice(SCHEMES), server=rng.choice(SERVERS).lower(), script=rng.choice(SCRIPTS), subdomain=sub,
                    query=rng.choice(QUERIES))
 
@@ -78,6 +86,12 @@ def with_defaults(rng, ms: MapSpec) -> MapSpec:
     if c < 0.75:
         head = (Seg(lit=tag), *[s_ for s_ in mid if s_.lit is None])
         a = replace(b, segs=head, branch=rng.random() < 0.6, defaults=(("page", dv),))
+        if rng.random() < 0.4:
+            # the canonical (defaults) rule takes fewer methods than the explicit rule:
+            # Rule('/items/', defaults={'page': 1}, methods=['GET']) next to Rule('/items/<int:page>', methods=['GET', 'POST'])
+            b = replace(b, methods=("GET", "POST"))
+            group[0] = b
+            a = replace(a, methods=("GET",))
         group.append(a)
         if rng.random() < 0.45:      # a second provider: the first defined one is the canonical URL
             group.append(replace(a, segs=(Seg(lit=tag + "x"),) + tuple(head[1:])))
@@ -285,7 +299,7 @@ def e2e_query_preserved(m, ms: MapSpec, ad: Adapter, path: str, meth: str):
     want = repr(sorted(Request(env0).args.items(multi=True)))
     c = Client(app)
     c.allow_subdomain_redirects = True
-    host = (ad.subdomain + "." if ad.subdomain else "") + ad.server
+    host = (ad.subdomain + "." if ad.subdomain else "") + ad.server + ad.host_suffix
     try:
         resp = c.open(path=path, base_url=f"{ad.scheme}://{host}{ad.script.rstrip('/')}/", query_string=ad.query_str(), method=meth,
                       follow_redirects=True)
@@ -339,7 +353,7 @@ def run(chk: Check) -> None:
         cases.append((ms, c12_paths(rng, ms, 7), [rng.choice(["GET", "GET", "GET", "POST", "HEAD"])], gen_adapter(rng, ms)))
     for _ in range(n_build):
         ms = with_defaults(rng, gen_map(rng, nmax=3, per_rule=rng.random() < 0.5))
-        cases.append((ms, c12_paths(rng, ms, 8), ["GET"], gen_adapter(rng, ms)))
+        cases.append((ms, c12_paths(rng, ms, 8), [rng.choice(["GET", "GET", "POST"])], gen_adapter(rng, ms)))
     for _ in range(n_sub):
         ms = with_subdomains(rng, gen_map(rng, nmax=4, per_rule=rng.random() < 0.5))
         if rng.random() < 0.4:
